@@ -3,6 +3,7 @@
   check selftest determinism [C07 C16 C19]
   check selftest mutants [prop or mutant-id ...]      scratch copies of /repo under $TMPDIR, removed afterwards
   check selftest seeded [id ...]                       the sub-agent changes kept in /verif/seeded/<id>/patch.diff
+  check selftest variants [id | prop | silent | kill]   reviewer-written library variants: legit ones silent, defects killed
   check selftest fidelity                              C19 socket stub vs real 127.0.0.1 sockets
 None of this is part of quick_cmd; results are written to /verif/out/selftest-*.json.
 """
@@ -206,6 +207,42 @@ def seeded(sel):
     return 0 if ok_all else 2
 
 
+def variants(sel):
+    """Reviewer-written library variants (/verif/variants/*.diff): legitimate ones must stay silent, defects must be killed."""
+    base = os.path.join(VERIF_ROOT, "variants")
+    idx = json.load(open(os.path.join(base, "index.json")))["variants"]
+    todo = [v for v in idx if not sel or v["id"] in sel or v["prop"] in sel or v["expect"] in sel]
+    results = []
+    ok_all = True
+    for v in todo:
+        scratch = _scratch_copy()
+        try:
+            p = subprocess.run(["patch", "-p0", "-s", "-i", os.path.join(base, v["id"] + ".diff")], cwd=scratch,
+                               stdout=subprocess.PIPE, stderr=subprocess.STDOUT, text=True)
+            if p.returncode != 0:
+                print("variant %-34s STALE: %s" % (v["id"], (p.stdout.strip().splitlines() or [""])[-1]))
+                results.append(dict(id=v["id"], status="STALE"))
+                ok_all = False
+                continue
+            r = _run_check_on(scratch, v["prop"], int(os.environ.get("VERIF_RUNS", RUNS[v["prop"]])))
+        finally:
+            shutil.rmtree(scratch, ignore_errors=True)
+            _drop_numba_cache_for(scratch)
+        status = {0: "SILENT", 1: "KILLED"}.get(r["exit"], "HARNESS")
+        want = {"silent": "SILENT", "kill": "KILLED", "harness": "HARNESS"}.get(v["expect"])
+        fine = want is None or status == want
+        ok_all = ok_all and fine
+        results.append(dict(id=v["id"], prop=v["prop"], status=status, expected=v["expect"], clauses=r["clauses"],
+                            messages=r["messages"], wall_s=r["wall_s"], tail=r["tail"], note=v["note"]))
+        print("variant %-34s %-8s (expected %-7s) clauses=%s %.0fs%s" % (
+            v["id"], status, v["expect"], ",".join(r["clauses"]), r["wall_s"], "" if fine else "   <-- UNEXPECTED"))
+        if status != "SILENT":
+            for mline in (r["messages"][:1] or r["tail"][-1:]):
+                print("        " + str(mline)[:230])
+    _write("selftest-variants.json", results)
+    return 0 if ok_all else 2
+
+
 def main(argv):
     if not argv:
         print(__doc__)
@@ -217,6 +254,8 @@ def main(argv):
         return mutants(rest)
     if what == "seeded":
         return seeded(rest)
+    if what == "variants":
+        return variants(rest)
     if what == "fidelity":
         from sims import c19_fidelity
         return c19_fidelity.main(rest)
